@@ -6,6 +6,7 @@
 package c07
 
 import (
+	"bytes"
 	"encoding/binary"
 	"encoding/json"
 	"fmt"
@@ -221,9 +222,22 @@ func clone(v []uint64) []uint64 { return append(make([]uint64, 0, len(v)), v...)
 func cp(b []byte) []byte { return append([]byte(nil), b...) }
 
 func scalarEncode(typ string, raw []uint64) ([]byte, error) {
+	return scalarEncodeReuse(typ, nil, false, raw)
+}
+
+// scalarEncodeReuse encodes raw with a scalar encoder; with reuse the SAME encoder object first encodes prior
+// (write, flush, Bytes) and is Reset() before raw is written - the way the block encoders use pooled encoders.
+func scalarEncodeReuse(typ string, prior []uint64, reuse bool, raw []uint64) ([]byte, error) {
 	switch typ {
 	case "time":
 		e := tsm1.NewTimeEncoder(len(raw))
+		if reuse {
+			for _, v := range prior {
+				e.Write(int64(v))
+			}
+			e.Bytes()
+			e.Reset()
+		}
 		for _, v := range raw {
 			e.Write(int64(v))
 		}
@@ -231,6 +245,14 @@ func scalarEncode(typ string, raw []uint64) ([]byte, error) {
 		return cp(b), err
 	case "int", "uint": // the unsigned scalar codec is the integer encoder on int64(v) (encodeUnsignedBlockUsing)
 		e := tsm1.NewIntegerEncoder(len(raw))
+		if reuse {
+			for _, v := range prior {
+				e.Write(int64(v))
+			}
+			e.Flush()
+			e.Bytes()
+			e.Reset()
+		}
 		for _, v := range raw {
 			e.Write(int64(v))
 		}
@@ -239,6 +261,14 @@ func scalarEncode(typ string, raw []uint64) ([]byte, error) {
 		return cp(b), err
 	case "float":
 		e := tsm1.NewFloatEncoder()
+		if reuse {
+			for _, v := range prior {
+				e.Write(math.Float64frombits(v))
+			}
+			e.Flush()
+			e.Bytes()
+			e.Reset()
+		}
 		for _, v := range raw {
 			e.Write(math.Float64frombits(v))
 		}
@@ -247,6 +277,14 @@ func scalarEncode(typ string, raw []uint64) ([]byte, error) {
 		return cp(b), err
 	case "bool":
 		e := tsm1.NewBooleanEncoder(len(raw))
+		if reuse {
+			for _, v := range prior {
+				e.Write(v != 0)
+			}
+			e.Flush()
+			e.Bytes()
+			e.Reset()
+		}
 		for _, v := range raw {
 			e.Write(v != 0)
 		}
@@ -255,6 +293,14 @@ func scalarEncode(typ string, raw []uint64) ([]byte, error) {
 		return cp(b), err
 	case "string":
 		e := tsm1.NewStringEncoder(16)
+		if reuse {
+			for _, v := range prior {
+				e.Write(strAlpha[v])
+			}
+			e.Flush()
+			e.Bytes()
+			e.Reset()
+		}
 		for _, v := range raw {
 			e.Write(strAlpha[v])
 		}
@@ -332,6 +378,12 @@ func fromStr(a []string) []uint64 {
 
 // batchEncode always hands the encoder a private copy of the input (the integer/time encoders destroy it).
 func batchEncode(typ string, raw []uint64, buf []byte) ([]byte, error) {
+	b, err := batchEncodeRaw(typ, raw, buf)
+	return cp(b), err
+}
+
+// batchEncodeRaw returns the encoder's result slice itself (length AND capacity as the encoder produced them).
+func batchEncodeRaw(typ string, raw []uint64, buf []byte) ([]byte, error) {
 	var b []byte
 	var err error
 	switch typ {
@@ -350,7 +402,7 @@ func batchEncode(typ string, raw []uint64, buf []byte) ([]byte, error) {
 	default:
 		panic("bad type " + typ)
 	}
-	return cp(b), err
+	return b, err
 }
 
 func scalarDecode(typ string, b []byte, limit int) ([]uint64, error) {
@@ -407,30 +459,59 @@ func scalarDecode(typ string, b []byte, limit int) ([]uint64, error) {
 	panic("bad type " + typ)
 }
 
-// dst variants for the batch decoders: 0 = nil, 1 = dirty buffer larger than needed (expected length + 17), 2 = tiny dirty buffer.
-var dstNames = [3]string{"", "+dst-large", "+dst-tiny"}
+// dst variants for the batch decoders (the destination value slice handed to <T>ArrayDecodeAll):
+//
+//	0 nil
+//	1 "+dst-large": cap want+17, len half of that, every element a fixed non-zero constant
+//	2 "+dst-tiny":  cap 1, len 0, dirty
+//	3 "+dst-exact": len = cap = want, element i pre-filled with the COMPLEMENT of the expected value i
+//	4 "+dst-short": len = cap = want-1 (shorter than needed), pre-filled with complements
+//	5 "+dst-long":  len = cap = want+9 (longer than needed), pre-filled with complements, all-ones beyond
+var dstNames = [6]string{"", "+dst-large", "+dst-tiny", "+dst-exact", "+dst-short", "+dst-long"}
 
-func dstCap(variant, want int) int {
+const nDecoders = 1 + len(dstNames) // scalar + every dst variant of the batch decoder
+
+func dstShape(variant, want int) (ln, cp int) {
 	switch variant {
 	case 1:
-		return want + 17
+		return (want + 17) / 2, want + 17
 	case 2:
-		return 1
+		return 0, 1
+	case 3:
+		return want, want
+	case 4:
+		if want > 0 {
+			return want - 1, want - 1
+		}
+	case 5:
+		return want + 9, want + 9
 	}
-	return 0
+	return 0, 0
 }
 
-func batchDecode(typ string, b []byte, variant, want int) ([]uint64, error) {
-	n := dstCap(variant, want)
+// batchDecode decodes b with the batch decoder of typ into a destination slice of the given variant; expect is the
+// sequence the decoder is supposed to return (used only to pre-fill dst with values that are wrong everywhere).
+func batchDecode(typ string, b []byte, variant int, expect []uint64) ([]uint64, error) {
+	ln, n := dstShape(variant, len(expect))
+	// pre(i, c): raw pre-fill item for index i; c is the constant used by the old variants 1 and 2
+	pre := func(i int, c uint64) uint64 {
+		if variant <= 2 {
+			return c
+		}
+		if i < len(expect) {
+			return ^expect[i]
+		}
+		return math.MaxUint64
+	}
 	switch typ {
 	case "time", "int":
 		var dst []int64
 		if n > 0 {
 			dst = make([]int64, n)
 			for i := range dst {
-				dst[i] = -0x0123456789ABCDEF
+				dst[i] = int64(pre(i, i2u(-0x0123456789ABCDEF)))
 			}
-			dst = dst[:n/2]
+			dst = dst[:ln]
 		}
 		var out []int64
 		var err error
@@ -445,9 +526,9 @@ func batchDecode(typ string, b []byte, variant, want int) ([]uint64, error) {
 		if n > 0 {
 			dst = make([]uint64, n)
 			for i := range dst {
-				dst[i] = 0xFEDCBA9876543210
+				dst[i] = pre(i, 0xFEDCBA9876543210)
 			}
-			dst = dst[:n/2]
+			dst = dst[:ln]
 		}
 		out, err := tsm1.UnsignedArrayDecodeAll(b, dst)
 		return append([]uint64(nil), out...), err
@@ -456,9 +537,9 @@ func batchDecode(typ string, b []byte, variant, want int) ([]uint64, error) {
 		if n > 0 {
 			dst = make([]float64, n)
 			for i := range dst {
-				dst[i] = -12345.678
+				dst[i] = math.Float64frombits(pre(i, math.Float64bits(-12345.678)))
 			}
-			dst = dst[:n/2]
+			dst = dst[:ln]
 		}
 		out, err := tsm1.FloatArrayDecodeAll(b, dst)
 		return fromF64(out), err
@@ -467,9 +548,16 @@ func batchDecode(typ string, b []byte, variant, want int) ([]uint64, error) {
 		if n > 0 {
 			dst = make([]bool, n)
 			for i := range dst {
-				dst[i] = i%3 != 0
+				switch {
+				case variant <= 2:
+					dst[i] = i%3 != 0
+				case i < len(expect):
+					dst[i] = expect[i] == 0
+				default:
+					dst[i] = true
+				}
 			}
-			dst = dst[:n/2]
+			dst = dst[:ln]
 		}
 		out, err := tsm1.BooleanArrayDecodeAll(b, dst)
 		return fromBool(out), err
@@ -480,7 +568,7 @@ func batchDecode(typ string, b []byte, variant, want int) ([]uint64, error) {
 			for i := range dst {
 				dst[i] = "stale"
 			}
-			dst = dst[:n/2]
+			dst = dst[:ln]
 		}
 		out, err := tsm1.StringArrayDecodeAll(b, dst)
 		return fromStr(out), err
@@ -511,6 +599,119 @@ func primerBuf(typ string) []byte {
 	}
 	return append(make([]byte, 0, len(p)), p...)[:0]
 }
+
+// ---------------------------------------------------------------------------------------------------------
+// Destination-buffer states of the batch encoders (<T>ArrayEncodeAll(src, b)): the result must not depend on what b
+// held before the call.
+
+// priorSeq is a boring sequence of m items of the type that every encoder accepts (no NaN), different from the
+// alphabets' constant runs: it is what "was encoded before" into a reused buffer / by a reused scalar encoder.
+func priorSeq(typ string, m int) []uint64 {
+	var lit []uint64
+	switch typ {
+	case "float":
+		lit = floatFinite
+	case "bool":
+		lit = []uint64{1, 1, 0}
+	case "string":
+		for i := 0; i < nSmallStr; i++ {
+			lit = append(lit, uint64(i))
+		}
+	default:
+		lit = alphaOf(typ)
+	}
+	return Spec{Kind: "cycle", N: m, Lit: lit}.gen()
+}
+
+type prevEnc struct {
+	full []byte // the encoder's result re-sliced to its full capacity
+	ln   int    // length of the result
+}
+
+var prevCache = map[string]prevEnc{}
+
+// prevBuf returns a fresh copy of what <T>ArrayEncodeAll(priorSeq(typ, m), nil) returned, with the same length and
+// capacity and the same bytes between length and capacity.
+func prevBuf(typ string, m int) []byte {
+	k := fmt.Sprintf("%s/%d", typ, m)
+	pe, ok := prevCache[k]
+	if !ok {
+		b, err := batchEncodeRaw(typ, priorSeq(typ, m), nil)
+		if err != nil {
+			panic(fmt.Sprintf("harness: prior sequence %s rejected: %v", k, err))
+		}
+		pe = prevEnc{full: cp(b[:cap(b)]), ln: len(b)}
+		prevCache[k] = pe
+	}
+	return append(make([]byte, 0, len(pe.full)), pe.full...)[:pe.ln]
+}
+
+func longerLen(n int) int { return n + 17 }
+
+func itemBytes(typ string, raw []uint64) int {
+	switch typ {
+	case "bool":
+		return len(raw)
+	case "string":
+		t := 0
+		for _, v := range raw {
+			t += len(strAlpha[v]) + 5
+		}
+		return t
+	}
+	return 8 * len(raw)
+}
+
+// bufStates are the initial states of the destination buffer, besides nil ("batch") and the old 40-value primer
+// re-sliced to length 0 ("batch+buf-reused"). L = length of the encoding produced into a nil buffer, H = 3 x the raw
+// input size + L + 128 (larger than any scratch space an encoder may want).
+var bufStates = []string{
+	"cap-ff",           // len 0, cap H, backing array all 0xff
+	"exact-ff",         // len = cap = L, all 0xff
+	"larger-ff",        // len = cap = L+24, all 0xff
+	"huge-ff",          // len = cap = H, all 0xff
+	"huge-aa",          // len = H/2, cap = H, all 0xaa
+	"prev-longer",      // exactly what encoding a DIFFERENT sequence of n+17 items returned (its len, its cap)
+	"prev-longer-full", // the same, re-sliced to its full capacity
+	"prev-shorter",     // exactly what encoding a different sequence of n/2 items returned
+}
+
+func filled(ln, cp int, v byte) []byte {
+	b := make([]byte, cp)
+	for i := range b {
+		b[i] = v
+	}
+	return b[:ln]
+}
+
+func mkBuf(state, typ string, raw []uint64, L int) []byte {
+	H := 3*itemBytes(typ, raw) + L + 128
+	switch state {
+	case "cap-ff":
+		return filled(0, H, 0xff)
+	case "exact-ff":
+		return filled(L, L, 0xff)
+	case "larger-ff":
+		return filled(L+24, L+24, 0xff)
+	case "huge-ff":
+		return filled(H, H, 0xff)
+	case "huge-aa":
+		return filled(H/2, H, 0xaa)
+	case "prev-longer":
+		return prevBuf(typ, longerLen(len(raw)))
+	case "prev-longer-full":
+		b := prevBuf(typ, longerLen(len(raw)))
+		return b[:cap(b)]
+	case "prev-shorter":
+		return prevBuf(typ, len(raw)/2)
+	}
+	panic("bad buffer state " + state)
+}
+
+// stats of the buffer-state dimension (reported as coverage extras)
+var bufStat struct{ encodes, differ, same, reuseScalar, reuseScalarDiffer, blockEncodes, blockDiffer int64 }
+
+var blockBufStates = []string{"cap-ff", "larger-ff", "larger-aa", "prev-block"}
 
 func branchName(typ string, b []byte) string {
 	if len(b) == 0 {
@@ -639,6 +840,154 @@ func foldDecFails(prefix []string, enc string, nDecoders int, rs []decRes, add f
 	}
 }
 
+// decodeBoth runs an encoder output through the scalar/iterator decoder AND the batch decoder (nil dst and a dirty
+// exact-size dst) and returns the failing paths.
+func decodeBoth(typ string, raw []uint64, b []byte, desc, path, feat string) []decRes {
+	br := branchName(typ, b)
+	var rs []decRes
+	for _, dv := range []int{0, 1, 4} { // scalar, batch, batch+dst-exact
+		var got []uint64
+		var derr error
+		dname := "scalar"
+		if dv > 0 {
+			dname = "batch" + dstNames[dv-1]
+		}
+		p, d := vlib.Guard(func() {
+			if dv == 0 {
+				got, derr = scalarDecode(typ, b, len(raw)+16)
+			} else {
+				got, derr = batchDecode(typ, b, dv-1, raw)
+			}
+		})
+		pth := path + "->" + dname
+		switch {
+		case p:
+			rs = append(rs, decRes{dname, "panic", br + "/" + frame(d), desc + ": " + pth + ": " + d})
+		case derr != nil:
+			rs = append(rs, decRes{dname, "decode-error", br + feat, fmt.Sprintf("%s: %s: decoder failed on the encoder's own output (%d bytes): %v", desc, pth, len(b), derr)})
+		case !equalU(raw, got):
+			rs = append(rs, decRes{dname, "mismatch", br + feat, fmt.Sprintf("%s: %s: decoded %s; input %s decoded %s", desc, pth, firstDiff(raw, got), hexs(raw, 6), hexs(got, 6))})
+		}
+	}
+	return rs
+}
+
+func subsetDecFails(rs []decRes) []decRes {
+	var o []decRes
+	for _, r := range rs {
+		if r.dec == "scalar" || r.dec == "batch" || r.dec == "batch+dst-exact" {
+			o = append(o, r)
+		}
+	}
+	return o
+}
+
+// checkBufferStates: the batch encoder is called once per destination-buffer state; its verdict must be the one it
+// gave for a nil buffer, and its output must either be byte-identical to the nil-buffer output (whose decoding has
+// been checked already) or decode to the input with the scalar and the batch decoder. Only the first failing state
+// of a case is reported (the others are listed in the message) to keep the number of classes small.
+func checkBufferStates(typ string, raw []uint64, desc, feat string, mustAccept, refOK bool, ref []byte, refErr error, refFails []decRes, add func(sig, msg string)) {
+	type stateFail struct {
+		state string
+		fs    []fail
+	}
+	var sfs []stateFail
+	L := len(ref)
+	for _, st := range bufStates {
+		buf := mkBuf(st, typ, raw, L)
+		name := "batch+buf-" + st
+		var b []byte
+		var err error
+		p, d := vlib.Guard(func() { b, err = batchEncode(typ, raw, buf) })
+		bufStat.encodes++
+		var fs []fail
+		addf := func(sig, msg string) { fs = append(fs, fail{sig, msg}) }
+		switch {
+		case p:
+			if refOK {
+				addf(vlib.JoinSig("codec", typ, name+"-encode", "panic", frame(d)), desc+": "+d)
+			}
+		case err != nil:
+			if refOK && refErr == nil {
+				if mustAccept {
+					addf(vlib.JoinSig("codec", typ, name+"-encode", "rejects-valid"+feat), fmt.Sprintf("%s: batch encoder accepts the sequence with a nil buffer but rejects it with buffer state %s: %v", desc, st, err))
+				} else {
+					addf(vlib.JoinSig("codec", typ, "accept-disagree", "batch=true,"+name+"=false"+feat), fmt.Sprintf("%s: batch encoder err=nil with a nil buffer but err=%v with buffer state %s", desc, err, st))
+				}
+			}
+		case refOK && refErr != nil:
+			if !mustAccept { // where the statement demands acceptance the nil-buffer rejection is reported already
+				addf(vlib.JoinSig("codec", typ, "accept-disagree", "batch=false,"+name+"=true"+feat), fmt.Sprintf("%s: batch encoder err=%v with a nil buffer but err=nil with buffer state %s", desc, refErr, st))
+			}
+		case refOK && bytes.Equal(ref, b):
+			bufStat.same++
+		default:
+			bufStat.differ++
+			rs := decodeBoth(typ, raw, b, desc, name, feat)
+			if len(rs) > 0 && !sameDecFails(rs, subsetDecFails(refFails)) {
+				foldDecFails([]string{"codec", typ}, name, 3, rs, addf)
+			}
+		}
+		if len(fs) > 0 {
+			sfs = append(sfs, stateFail{st, fs})
+		}
+	}
+	if len(sfs) == 0 {
+		return
+	}
+	var also []string
+	for _, sf := range sfs[1:] {
+		also = append(also, sf.state)
+	}
+	for _, f := range sfs[0].fs {
+		msg := f.msg
+		if len(also) > 0 {
+			msg += " (also failing with buffer states " + strings.Join(also, ",") + ")"
+		}
+		add(f.sig, msg)
+	}
+}
+
+// checkScalarReuse: a scalar encoder object that has encoded another sequence and was Reset() must produce an
+// output that is byte-identical to a fresh encoder's or at least decodes to the input on both decoder paths.
+func checkScalarReuse(typ string, raw []uint64, desc, feat string, mustAccept, refOK bool, ref []byte, refErr error, refFails []decRes, add func(sig, msg string)) {
+	m := longerLen(len(raw))
+	if m > 81 {
+		m = 81
+	}
+	prior := priorSeq(typ, m)
+	name := "scalar+reset"
+	var b []byte
+	var err error
+	p, d := vlib.Guard(func() { b, err = scalarEncodeReuse(typ, prior, true, raw) })
+	bufStat.reuseScalar++
+	switch {
+	case p:
+		if refOK {
+			add(vlib.JoinSig("codec", typ, name+"-encode", "panic", frame(d)), desc+": "+d)
+		}
+	case err != nil:
+		if refOK && refErr == nil {
+			if mustAccept {
+				add(vlib.JoinSig("codec", typ, name+"-encode", "rejects-valid"+feat), fmt.Sprintf("%s: a fresh scalar encoder accepts the sequence, a reused (Reset) one rejects it: %v", desc, err))
+			} else {
+				add(vlib.JoinSig("codec", typ, "accept-disagree", "scalar=true,"+name+"=false"+feat), fmt.Sprintf("%s: fresh scalar encoder err=nil, reused (Reset) one err=%v", desc, err))
+			}
+		}
+	case refOK && refErr != nil:
+		if !mustAccept {
+			add(vlib.JoinSig("codec", typ, "accept-disagree", "scalar=false,"+name+"=true"+feat), fmt.Sprintf("%s: fresh scalar encoder err=%v, reused (Reset) one err=nil", desc, refErr))
+		}
+	case refOK && bytes.Equal(ref, b):
+	default:
+		bufStat.reuseScalarDiffer++
+		rs := decodeBoth(typ, raw, b, desc, name, feat)
+		if len(rs) > 0 && !sameDecFails(rs, subsetDecFails(refFails)) {
+			foldDecFails([]string{"codec", typ}, name, 3, rs, add)
+		}
+	}
+}
+
 // checkCodec runs one sequence through every encoder x decoder path of one component codec.
 func checkCodec(cs Case) (outcome string, fails []fail) {
 	typ := cs.Type
@@ -703,8 +1052,12 @@ func checkCodec(cs Case) (outcome string, fails []fail) {
 			verdict = "accepted-optional"
 		}
 		br := branchName(typ, e.b)
+		if i == 2 && encs[1].ok && encs[1].err == nil && bytes.Equal(encs[1].b, e.b) {
+			decFails[2] = decFails[1] // byte-identical output: the decoders are deterministic functions of it
+			continue
+		}
 		var rs []decRes
-		for dv := 0; dv < 4; dv++ {
+		for dv := 0; dv < nDecoders; dv++ {
 			var got []uint64
 			var derr error
 			dname := "scalar"
@@ -715,7 +1068,7 @@ func checkCodec(cs Case) (outcome string, fails []fail) {
 				if dv == 0 {
 					got, derr = scalarDecode(typ, e.b, len(raw)+16)
 				} else {
-					got, derr = batchDecode(typ, e.b, dv-1, len(raw))
+					got, derr = batchDecode(typ, e.b, dv-1, raw)
 				}
 			})
 			path := e.name + "->" + dname
@@ -734,8 +1087,10 @@ func checkCodec(cs Case) (outcome string, fails []fail) {
 		if i == 2 && sameDecFails(decFails[1], decFails[2]) {
 			continue // the reused buffer makes no difference: already reported for the plain batch encoder
 		}
-		foldDecFails([]string{"codec", typ}, encs[i].name, 4, decFails[i], add)
+		foldDecFails([]string{"codec", typ}, encs[i].name, nDecoders, decFails[i], add)
 	}
+	checkBufferStates(typ, raw, desc, feat, mustAccept, encs[1].ok, encs[1].b, encs[1].err, decFails[1], add)
+	checkScalarReuse(typ, raw, desc, feat, mustAccept, encs[0].ok, encs[0].b, encs[0].err, decFails[0], add)
 	// where rejection is permitted (NaN), every encoder must take the same decision
 	if !mustAccept {
 		for i := 1; i < len(encs); i++ {
@@ -986,7 +1341,7 @@ func rawOf(v tsm1.Value) uint64 {
 	return 0xBADBADBADBAD
 }
 
-func blockEncode(typ string, which int, ts, raw []uint64) ([]byte, error) {
+func blockEncode(typ string, which int, ts, raw []uint64, buf []byte) ([]byte, error) {
 	var b []byte
 	var err error
 	switch which {
@@ -995,7 +1350,7 @@ func blockEncode(typ string, which int, ts, raw []uint64) ([]byte, error) {
 		for i := range raw {
 			vals[i] = mkValue(typ, int64(ts[i]), raw[i])
 		}
-		b, err = vals.Encode(nil)
+		b, err = vals.Encode(buf)
 	case 1: // typed values
 		switch typ {
 		case "int":
@@ -1003,44 +1358,44 @@ func blockEncode(typ string, which int, ts, raw []uint64) ([]byte, error) {
 			for i := range raw {
 				a[i] = mkValue(typ, int64(ts[i]), raw[i]).(tsm1.IntegerValue)
 			}
-			b, err = a.Encode(nil)
+			b, err = a.Encode(buf)
 		case "uint":
 			a := make(tsm1.UnsignedValues, len(raw))
 			for i := range raw {
 				a[i] = mkValue(typ, int64(ts[i]), raw[i]).(tsm1.UnsignedValue)
 			}
-			b, err = a.Encode(nil)
+			b, err = a.Encode(buf)
 		case "float":
 			a := make(tsm1.FloatValues, len(raw))
 			for i := range raw {
 				a[i] = mkValue(typ, int64(ts[i]), raw[i]).(tsm1.FloatValue)
 			}
-			b, err = a.Encode(nil)
+			b, err = a.Encode(buf)
 		case "bool":
 			a := make(tsm1.BooleanValues, len(raw))
 			for i := range raw {
 				a[i] = mkValue(typ, int64(ts[i]), raw[i]).(tsm1.BooleanValue)
 			}
-			b, err = a.Encode(nil)
+			b, err = a.Encode(buf)
 		case "string":
 			a := make(tsm1.StringValues, len(raw))
 			for i := range raw {
 				a[i] = mkValue(typ, int64(ts[i]), raw[i]).(tsm1.StringValue)
 			}
-			b, err = a.Encode(nil)
+			b, err = a.Encode(buf)
 		}
 	case 2: // array (batch) block
 		switch typ {
 		case "int":
-			b, err = tsm1.EncodeIntegerArrayBlock(&tsdb.IntegerArray{Timestamps: toI64(ts), Values: toI64(raw)}, nil)
+			b, err = tsm1.EncodeIntegerArrayBlock(&tsdb.IntegerArray{Timestamps: toI64(ts), Values: toI64(raw)}, buf)
 		case "uint":
-			b, err = tsm1.EncodeUnsignedArrayBlock(&tsdb.UnsignedArray{Timestamps: toI64(ts), Values: append([]uint64(nil), raw...)}, nil)
+			b, err = tsm1.EncodeUnsignedArrayBlock(&tsdb.UnsignedArray{Timestamps: toI64(ts), Values: append([]uint64(nil), raw...)}, buf)
 		case "float":
-			b, err = tsm1.EncodeFloatArrayBlock(&tsdb.FloatArray{Timestamps: toI64(ts), Values: toF64(raw)}, nil)
+			b, err = tsm1.EncodeFloatArrayBlock(&tsdb.FloatArray{Timestamps: toI64(ts), Values: toF64(raw)}, buf)
 		case "bool":
-			b, err = tsm1.EncodeBooleanArrayBlock(&tsdb.BooleanArray{Timestamps: toI64(ts), Values: toBool(raw)}, nil)
+			b, err = tsm1.EncodeBooleanArrayBlock(&tsdb.BooleanArray{Timestamps: toI64(ts), Values: toBool(raw)}, buf)
 		case "string":
-			b, err = tsm1.EncodeStringArrayBlock(&tsdb.StringArray{Timestamps: toI64(ts), Values: toStr(raw)}, nil)
+			b, err = tsm1.EncodeStringArrayBlock(&tsdb.StringArray{Timestamps: toI64(ts), Values: toStr(raw)}, buf)
 		}
 	}
 	return cp(b), err
@@ -1208,7 +1563,7 @@ func checkBlock(cs Case) (outcome string, fails []fail) {
 	for ei := 0; ei < 3; ei++ {
 		var block []byte
 		var err error
-		p, d := vlib.Guard(func() { block, err = blockEncode(typ, ei, ts, raw) })
+		p, d := vlib.Guard(func() { block, err = blockEncode(typ, ei, ts, raw, nil) })
 		en := blockEncNames[ei]
 		if p {
 			add(vlib.JoinSig("block", typ, en, "panic", frame(d)), desc+": "+d)
@@ -1262,6 +1617,64 @@ func checkBlock(cs Case) (outcome string, fails []fail) {
 			}
 		}
 		foldDecFails([]string{"block", typ}, en, 4, rs, add)
+
+		// destination-buffer states of the block encoder: same verdict, and byte-identical output or at least an
+		// output that decodes to the input with the value-at-a-time and the array decoder
+		nameOf := [2]string{"DecodeBlock", "DecodeArrayBlock"}
+		reported := false
+		for _, st := range blockBufStates {
+			L := len(block)
+			var buf []byte
+			switch st {
+			case "cap-ff":
+				buf = filled(0, L+64, 0xff)
+			case "larger-ff":
+				buf = filled(L+64, L+64, 0xff)
+			case "larger-aa":
+				buf = filled((L+64)/2, L+64, 0xaa)
+			case "prev-block": // the block just produced followed by its complement: "an earlier, longer block"
+				buf = append(cp(block), block...)
+				for k := L; k < len(buf); k++ {
+					buf[k] = ^buf[k]
+				}
+				buf = append(buf, filled(32, 32, 0x55)...)
+			}
+			var b2 []byte
+			var err2 error
+			p, d := vlib.Guard(func() { b2, err2 = blockEncode(typ, ei, ts, raw, buf) })
+			bufStat.blockEncodes++
+			name := en + "+buf-" + st
+			var rs2 []decRes
+			switch {
+			case p:
+				rs2 = append(rs2, decRes{"encode", "panic", frame(d), desc + ": " + name + ": " + d})
+			case err2 != nil:
+				rs2 = append(rs2, decRes{"encode", "verdict-differs-from-nil-buffer", strings.TrimPrefix(feat, "/"), fmt.Sprintf("%s: %s rejected a block that %s accepts with a nil buffer: %v", desc, name, en, err2)})
+			case bytes.Equal(block, b2):
+			default:
+				bufStat.blockDiffer++
+				for k, di := range []int{0, 2} {
+					var gts, graw []uint64
+					var derr error
+					p, d := vlib.Guard(func() { gts, graw, derr = blockDecode(typ, di, b2) })
+					path := name + "->" + nameOf[k]
+					switch {
+					case p:
+						rs2 = append(rs2, decRes{nameOf[k], "panic", frame(d), desc + ": " + path + ": " + d})
+					case derr != nil:
+						rs2 = append(rs2, decRes{nameOf[k], "decode-error", strings.TrimPrefix(feat, "/"), fmt.Sprintf("%s: %s failed on the encoder's own output: %v", desc, path, derr)})
+					case !equalU(ts, gts):
+						rs2 = append(rs2, decRes{nameOf[k], "timestamp-mismatch", tbranchOf(b2), fmt.Sprintf("%s: %s: timestamps: %s", desc, path, firstDiff(ts, gts))})
+					case !equalU(raw, graw):
+						rs2 = append(rs2, decRes{nameOf[k], "value-mismatch", strings.TrimPrefix(feat, "/"), fmt.Sprintf("%s: %s: values: %s", desc, path, firstDiff(raw, graw))})
+					}
+				}
+			}
+			if len(rs2) > 0 && !reported && len(rs) == 0 { // first failing state only; nothing new if the nil buffer fails too
+				reported = true
+				foldDecFails([]string{"block", typ}, name, 2, rs2, add)
+			}
+		}
 	}
 	if !mustAccept {
 		for ei := 1; ei < 3; ei++ {
@@ -1346,6 +1759,39 @@ func outlierPositions(n int) []int {
 	var o []int
 	for _, p := range cand {
 		if p >= 0 && p < n && !seen[p] {
+			seen[p] = true
+			o = append(o, p)
+		}
+	}
+	sort.Ints(o)
+	return o
+}
+
+// boolRanges: the length ranges of family F5 (inclusive); lengths <= boolMax are covered by F1 with ALL sequences.
+func boolRanges(thorough bool, boolMax int) [][2]int {
+	rs := [][2]int{{boolMax + 1, 40}, {57, 72}, {113, 136}}
+	if thorough {
+		rs = append(rs, [2]int{41, 56}, [2]int{233, 264}, [2]int{993, 1008}, [2]int{2041, 2056}, [2]int{16377, 16392})
+	}
+	return rs
+}
+
+func boolOutlierPositions(n int) []int {
+	if n <= 72 {
+		o := make([]int, n)
+		for i := range o {
+			o[i] = i
+		}
+		return o
+	}
+	seen := map[int]bool{}
+	var o []int
+	for _, p := range outlierPositions(n) {
+		seen[p] = true
+		o = append(o, p)
+	}
+	for p := n - 9; p < n; p++ {
+		if p >= 0 && !seen[p] {
 			seen[p] = true
 			o = append(o, p)
 		}
@@ -1574,6 +2020,26 @@ func explore(c *vlib.Ctx) {
 		e.visit(func() Case { return Case{Level: "codec", Type: "bool", V: s} })
 	})
 	mark("F2-bool")
+	// F5: booleans are bit-packed, so the last byte of the value section is partial unless n%8 == 0: every length
+	// around the byte / count-varint / block-size boundaries with constant, alternating and single-outlier runs, the
+	// outlier at EVERY position for n <= 72, else at the boundary positions and each of the last 9 positions
+	for _, r := range boolRanges(thorough, boolMax) {
+		for n := r[0]; n <= r[1]; n++ {
+			n := n
+			for _, a := range boolAlpha {
+				a := a
+				e.visit(func() Case { return Case{Level: "codec", Type: "bool", V: Spec{Kind: "const", N: n, A: a}} })
+				e.visit(func() Case { return Case{Level: "codec", Type: "bool", V: Spec{Kind: "alt", N: n, A: a, B: 1 - a}} })
+				for _, pos := range boolOutlierPositions(n) {
+					pos := pos
+					e.visit(func() Case {
+						return Case{Level: "codec", Type: "bool", V: Spec{Kind: "outlier", N: n, A: a, B: 1 - a, Pos: pos}}
+					})
+				}
+			}
+		}
+	}
+	mark("F5-bool-lengths")
 	// strings: short strings at every length, the long strings only in blocks of up to 121
 	var small, big []uint64
 	for i := range strAlpha {
@@ -1687,6 +2153,13 @@ func explore(c *vlib.Ctx) {
 		}
 	}
 	mark("F4-blocks")
+	c.Extra("bufstate_batch_encodes", bufStat.encodes)
+	c.Extra("bufstate_batch_output_identical_to_nil_buffer", bufStat.same)
+	c.Extra("bufstate_batch_output_differs_decoded_on_both_paths", bufStat.differ)
+	c.Extra("scalar_encoder_reuse_encodes", bufStat.reuseScalar)
+	c.Extra("scalar_encoder_reuse_output_differs_decoded", bufStat.reuseScalarDiffer)
+	c.Extra("bufstate_block_encodes", bufStat.blockEncodes)
+	c.Extra("bufstate_block_output_differs_decoded", bufStat.blockDiffer)
 }
 
 func TestCheck(t *testing.T) {
@@ -1700,12 +2173,18 @@ func TestCheck(t *testing.T) {
 			"× a,b over every simple8b selector boundary (2^w-1, 2^w for w∈{1..8,10,12,15,20,30,60}, 2^63, 2^64-1), for timestamps additionally 10^k and 3·10^k (k=1..13) as deltas; the pattern is used directly (simple8b, bool, string, float), as timestamp deltas, and as zig-zag deltas (int, uint); floats also bit-pattern walks start+i·inc (4 starts × 6 increments). " +
 			"F3: float XOR windows: [23, 23^w1, 23^w1^w2, 23^w1] for ALL pairs of (leading,trailing)-zero windows (quick: 14 boundary counts per side; thorough: all 0..63, two fill styles). " +
 			"F4: whole blocks: ALL value sequences of length 1..3 (thorough 1..4) × 5 timestamp patterns (RLE+divisor, equal, simple8b, uncompressed from MinInt64, simple8b+divisor wrapping past MaxInt64), ALL timestamp sequences of length 1..3(4) over the time alphabet × a cyclic value pattern, long blocks (F2 lengths × 4-6 value patterns × 5 timestamp patterns) through {Values.Encode, <T>Values.Encode, Encode<T>ArrayBlock} × {DecodeBlock, Decode<T>Block, Decode<T>ArrayBlock with nil and reused arrays} + BlockCount/BlockType. " +
-			"Per case every encoder (scalar, batch, batch into a reused buffer) × every decoder (scalar, batch with nil / large dirty / tiny dirty dst) is run; oracle = identity (Float64bits-exact, same length), NaN-containing float input may be rejected but then by every encoder alike; simple8b (Encode, EncodeAll, Encoder, Decode, DecodeAll, DecodeBytesBigEndian, Decoder, CountBytes, Count) must reject exactly the inputs containing a value > 2^60-1. " +
+			"F5: booleans (bit-packed, partial last byte): EVERY length 13..40, 57..72, 113..136 (thorough 19..72, 113..136, 233..264, 993..1008, 2041..2056, 16377..16392; with F1 every n%8 at every byte / count-varint / block-size boundary) × {constant, alternating, bed with one outlier at EVERY position (n<=72) or at the boundary positions and each of the last 9 positions}. " +
+			"Per codec case every encoder (scalar, batch, batch into a reused buffer) × every decoder (scalar/iterator; batch with dst ∈ {nil, large dirty cap with half length, tiny dirty, exact-size, one-too-short, 9-too-long — the last three full-length and pre-filled with the complement of every expected value}) is run; oracle = identity (Float64bits-exact, same length), NaN-containing float input may be rejected but then by every encoder alike. " +
+			"DESTINATION-BUFFER DIMENSION: per codec case the batch encoder <T>ArrayEncodeAll(src,b) (T = Time, Integer, Unsigned, Float, Boolean, String) is additionally run with b ∈ {len 0 / cap H all 0xff; len=cap=L all 0xff; len=cap=L+24 all 0xff; len=cap=H all 0xff; len H/2 cap H all 0xaa; exactly the slice returned by encoding a DIFFERENT sequence of n+17 items (its len and cap); that slice re-sliced to full capacity; the slice returned by encoding a different sequence of n/2 items} (L = length of the nil-buffer output, H = 3×raw input bytes + L + 128), and a scalar encoder object that has encoded another sequence of min(n+17,81) items and was Reset(); oracle: same accept/reject verdict as with a nil buffer / fresh encoder, and the output is byte-identical to it or else decodes to the input through BOTH the scalar/iterator decoder and the batch decoder (nil and dirty exact-size dst). " +
+			"Per block case each block encoder (Values.Encode(buf), <T>Values.Encode(buf), Encode<T>ArrayBlock(a,buf)) is additionally run with buf ∈ {len 0 cap L+64 0xff; len=cap=L+64 0xff; len (L+64)/2 cap L+64 0xaa; the block itself followed by its complement (an earlier longer block)} with the same oracle through DecodeBlock and Decode<T>ArrayBlock. Only the first failing buffer state of a case is reported as a class. " +
+			"simple8b (Encode, EncodeAll, Encoder, Decode, DecodeAll, DecodeBytesBigEndian, Decoder, CountBytes, Count) must reject exactly the inputs containing a value > 2^60-1. " +
 			"Non-trivial = non-empty sequence; cases are distinct by construction (families use disjoint lengths / a base value outside the alphabet).",
 		Assumptions: []string{
 			"explicit rejection (an error) of float sequences containing NaN is not a violation (float.go documents NaN as unstorable); all encoders must then agree",
 			"empty blocks are checked at the component-codec level only: Values.Encode documents a panic on no values and the typed/array block encoders return nil for them",
-			"encoders are created fresh per case at the component level; the block level goes through the repo's own encoder/decoder pools",
+			"scalar encoders are created fresh per case at the component level, plus one reused-after-Reset() encoder per case; the block level goes through the repo's own encoder/decoder pools",
+			"with a non-nil destination buffer the encoded bytes need not equal the nil-buffer bytes (e.g. padding bits of the last boolean byte are unspecified): only the decoded values are demanded then, on both decoder paths",
+			"the batch encoders may return a slice that does or does not alias the buffer passed in; writes beyond the returned length are not judged",
 			"the scalar timestamp/integer codecs use github.com/jwilder/encoding/simple8b (third party); it is exercised only through them",
 		},
 		QuickBudgetS: 60, ThoroughBudgetS: 780,
